@@ -73,11 +73,17 @@ func (libSim) Gen(prop, tier string, r *rand.Rand) interface{} {
 	default:
 		class = "small"
 	}
+	if (prop == "C01" || prop == "C06") && r.IntN(60) == 0 {
+		class = "big"
+	}
 	l := genLayout(r, class)
 	c := &LibCase{Layout: l, Clock0: genClock0(r, l), Windows: 4, WSeed: r.Uint64()}
 	nops := int(between(r, 3, 40))
 	if class == "prod" || class == "page" {
 		nops = int(between(r, 3, 25))
+	}
+	if class == "big" {
+		nops = int(between(r, 3, 8))
 	}
 	vmode := r.IntN(3)
 	if prop == "C02" && chance(r, 0.5) {
